@@ -15,7 +15,7 @@ import (
 	"github.com/irismod/service/types"
 )
 
-const nScripts = 47
+const nScripts = 49
 
 func runScript(a *App, mon *Mon, seed int64, v int) {
 	p := baseParams()
@@ -717,6 +717,33 @@ func runScript(a *App, mon *Mon, seed int64, v int) {
 			}
 			blocks(3)
 		}
+	case 47:
+		// governance raises the maximum request timeout beyond its default of 100; a request with
+		// a timeout of 130 is answered after block h+100 and in its expiry block
+		np := s.p
+		np.MaxRequestTimeout = 150
+		s.r.ChangeParams(np)
+		p4 := s.A.SignProv[3]
+		s.bind("svc", p4, o2, 1000, price("1"), 140)
+		id := s.call("svc", []sdk.AccAddress{p1, p2, p4}, cons, 100, 130, false, false, 0, 0)
+		s.block()
+		blocks(104)
+		answer(id, p1) // h+105
+		blocks(24)
+		answer(id, p2) // h+130, the expiry block itself
+		blocks(3)
+	case 48:
+		// an update that tops the deposit up and carries the current pricing again, written with
+		// other white space; a one-shot call that carries schedule terms it cannot use
+		s.r.Msg(types.NewMsgUpdateServiceBinding("svc", p1, coins(500), "{ \"price\" : \"2"+denom+"\" }", 0, "{}", o1), "top-up with the same pricing re-formatted")
+		s.r.Msg(types.NewMsgUpdateServiceBinding("svc", p2, coins(300), " "+price("3")+"\n", 0, "{}", o1), "")
+		s.r.Msg(types.NewMsgUpdateServiceBinding("svc", p3, coins(100), price("5"), 0, "{}", o2), "top-up with the identical pricing")
+		one := s.r.Msg(types.NewMsgCallService("svc", all, cons, goodInput, coins(100), 2, false, false, 2, -1), "one-shot with frequency and unlimited total").NewCtxID
+		s.block()
+		if one != "" {
+			answer(one, p1)
+		}
+		blocks(9)
 	}
 	s.done()
 }
